@@ -55,6 +55,9 @@ pub enum Tamper {
     /// C1 = (x, 0): on no curve with these formulas other than as a point of order two. C2/C3 are forged for the shared point an unchecked
     /// decryptor would compute: (x, 0) itself for odd d, and the all-zero coordinates of a normalised point at infinity for even d
     C1OrderTwoForged(u64),
+    /// C1 = point #i of sm2util::near_curve_points (off the curve, on a neighbouring equation with one constant changed, abscissa at a representation boundary);
+    /// C2/C3 forged consistently for [d]C1 as the group-law formulas compute it
+    C1NearCurveForged(u16),
 }
 
 #[derive(Serialize, Deserialize, Hash, Debug, Clone)]
@@ -168,6 +171,19 @@ pub fn check(c: &Case) -> CaseResult {
             }
             ct = assemble(&c1, &c2, &c3, b.c1c3c2);
             class = "invalid-curve-forged";
+        }
+        Tamper::C1NearCurveForged(i) => {
+            if b.compressed {
+                return pass(false, "off-curve-needs-uncompressed");
+            }
+            let pts = near_curve_points();
+            let (_, x, y) = &pts[*i as usize % pts.len()];
+            let Some((c2, c3)) = forge(&d, x, y, &bd.msg) else { return pass(false, "forge-infinity") };
+            let mut c1 = vec![4u8];
+            c1.extend_from_slice(&to32(x));
+            c1.extend_from_slice(&to32(y));
+            ct = assemble(&c1, &c2, &c3, b.c1c3c2);
+            class = "near-curve-forged";
         }
         Tamper::C1Nudged(w) => {
             if b.compressed {
@@ -325,6 +341,7 @@ pub fn tamper_strategy() -> impl Strategy<Value = Tamper> {
         3 => any::<u16>().prop_map(Tamper::Truncate),
         2 => (any::<u8>(), any::<u8>()).prop_map(|(n, b)| Tamper::Extend(n, b)),
         3 => any::<u64>().prop_map(Tamper::C1OffCurveForged),
+        3 => any::<u16>().prop_map(Tamper::C1NearCurveForged),
         2 => (0..8u8).prop_map(Tamper::C1Nudged),
         2 => any::<u64>().prop_map(Tamper::C1NonResidue),
         2 => (0..16u8).prop_map(Tamper::C1XPlusP),
@@ -342,7 +359,7 @@ pub fn run(ctx: &Ctx) {
     ctx.set_rule(
         "a case is (base, tampering): the base is a ciphertext made by the *reference* encryptor (|M| 1..64, four configurations); tamperings: every single-bit flip incl. the prefix byte (exhaustive per base), \
          every truncation length, small extensions, C1 replaced by a random off-curve (x,y) with C2/C3 forged consistently through the group law of the curve y^2=x^3+ax+b' it lies on (invalid-curve attack: \
-         without an on-curve check the library returns the plaintext), C1 = (x, 0) (a point of order two under the curve's formulas) with C2/C3 forged for the shared point an unchecked decryptor would compute (odd and even private keys), C1 nudged off the curve, compressed x with non-residue right-hand side, an on-curve C1 with small x encoded as x+p with consistent C2/C3, \
+         without an on-curve check the library returns the plaintext), the same with C1 from the near-curve family (off the curve but on a neighbouring equation with one constant changed, abscissas at representation boundaries incl. those where the Montgomery image of x, x^2 or x^3 is next to 0 or p), C1 = (x, 0) (a point of order two under the curve's formulas) with C2/C3 forged for the shared point an unchecked decryptor would compute (odd and even private keys), C1 nudged off the curve, compressed x with non-residue right-hand side, an on-curve C1 with small x encoded as x+p with consistent C2/C3, \
          every other prefix byte, C1 re-encoded in the other form, the whole ciphertext re-encoded (SM2Cipher DER, hex text, the other component order), multi-byte alterations of C3 / C2 / C1.x that preserve the xor, the sum or the multiset of the bytes or words (a folded or partial comparison of C3 accepts them), wholesale replacements of C3. Oracle: the reference decryptor (strict SEC1 decoding, on-curve check, C3 check) decides; tampered => Err, never a plaintext, never a panic. Non-trivial: a case the reference rejects.",
     );
     ctx.assume("reference decryptor (harness/src/refimpl/sm2.rs): strict SEC1 decoding (prefix 02/03/04 matching the caller's flag, coordinates < p), on-curve check, C3 = SM3(x2||M'||y2)");
@@ -414,9 +431,20 @@ pub fn run(ctx: &Ctx) {
         v
     }, check);
 
+    let nbn = ctx.tier.pick(2, 8);
+    ctx.listed("c1_near_curve_points", "C1 replaced by every point of the near-curve family — off the curve but on y^2 = x^3 + a'x + b' with one constant changed (a+1, a-1, a+2, a=0, a=+3, 2a, b+1, b-1, b=0, -b, both), abscissas 1..4, p-4..p-1 and those where the Montgomery image of x, x^2 or x^3 is within 6 of 0 or p, a power of two or 2^256-p — with C2/C3 forged consistently: an invalid-curve forgery aimed at a membership test that is wrong in one constant, reduction or carry", move || {
+        let mut v = Vec::new();
+        for b in fixed_bases(seed ^ 0x4e, nbn * 2).into_iter().filter(|b| !b.compressed) {
+            for i in 0..near_curve_points().len() {
+                v.push(Case { base: b.clone(), tamper: Tamper::C1NearCurveForged(i as u16) });
+            }
+        }
+        v
+    }, check);
+
     let nb3 = ctx.tier.pick(8, 64);
     let per = ctx.tier.pick(12u64, 40u64);
-    ctx.listed("c1_replacements", "invalid-curve forgeries, nudged points, non-residue x, x+p encodings — for each base", move || {
+    ctx.listed("c1_replacements", "invalid-curve forgeries (random points; the near-curve family: points on a neighbouring equation with one constant changed and boundary abscissas), nudged points, non-residue x, x+p encodings — for each base", move || {
         let mut v = Vec::new();
         for (bi, b) in fixed_bases(seed ^ 0x44, nb3).into_iter().enumerate() {
             for j in 0..per {
